@@ -45,6 +45,11 @@ def hexNat (s : String) : Nat :=
 
 def hexNatList (sep : String) (s : String) : List Nat := (sepList sep s).map hexNat
 
+/-- number → big-endian hex string of `digits` hex digits -/
+def natHex (digits : Nat) (n : Nat) : String :=
+  let d (k : Nat) : Char := if k < 10 then Char.ofNat (48 + k) else Char.ofNat (87 + k)
+  String.ofList ((List.range digits).reverse.map (fun i => d ((n / 16 ^ i) % 16)))
+
 def hexOfByte (b : UInt8) : String :=
   let d (n : Nat) : Char := if n < 10 then Char.ofNat (48 + n) else Char.ofNat (87 + n)
   String.ofList [d (b.toNat / 16), d (b.toNat % 16)]
